@@ -353,6 +353,8 @@ def run(ctx):
             ctx.check(ok, "C06.7", "cache-insert@%s" % (ps or A.show(e[2][1])), "cached records are a field of the validated NameserverResponse",
                       "recursive resolver caches %s" % A.show(e[2][1]), fn.loc(b))
     ctx.floor("C06.7", "cache insertions in recursive.rs", n_ins, 3)
+    from . import C19
+    C19.cache_sources_rule(ctx, "C06.7")
     # the raw reply only reaches the validator
     rn = prog.body_of(REC + "resolve_recursive_notimeout")
     rnr = A.Resolver(rn)
